@@ -50,3 +50,18 @@ class Contract(object):
         self.inline = inline
         self.note = note
 
+
+
+class SSeq(object):
+    """opaque symbolic sequence (bytes/str): only its length is known; slices are records, never materialised"""
+    def __init__(self, name, length):
+        self.name, self.length = name, length
+    def __repr__(self):
+        return '<SSeq %s len=%s>' % (self.name, self.length)
+
+class SSlice(object):
+    """the slice seq[lo:hi] of an opaque sequence (bounds are terms)"""
+    def __init__(self, seq, lo, hi):
+        self.seq, self.lo, self.hi = seq, lo, hi
+    def __repr__(self):
+        return '<%s[%s:%s]>' % (self.seq.name, self.lo, self.hi)
